@@ -98,7 +98,7 @@ def main(tier, only=None):
     E2FSCK = tool('e2fsck')
     fsweep.init_scratch()
     bases = [b for b in only if b not in ('geom', 'scen', 'toolop')] if only else (fsweep.QUICK_BASES if tier == 'quick' else fsweep.SWEEP_BASES)
-    ck.set_deadline(240 if tier == 'quick' else 2700)
+    ck.set_deadline(330 if tier == 'quick' else 2700)
     total = accepted = 0
     per = {}; viol_classes = {}
     sample = []
